@@ -733,7 +733,7 @@ func GenJob(r *core.Rng, name string, scrapeable bool) Job {
 	}
 	switch r.Intn(6) {
 	case 0:
-		j.SDs = []SD{{Kind: "file", Option: "/etc/prometheus/sd/" + name + "/*.json", Refresh: r.PickS("", "1m")}}
+		j.SDs = []SD{{Kind: "file", Option: r.PickS("/etc/prometheus/sd/", "sd/") + name + "/*.json", Refresh: r.PickS("", "1m")}}
 	case 1:
 		j.SDs = []SD{{Kind: "kubernetes", Option: r.PickS("pod", "endpoints", "node", "service"), Refresh: r.PickS("", "default", "kube-system, monitoring"),
 			Auth: GenAuth(r, name+"sd", "none", "none", "basic", "bearer", "authorization")}}
@@ -782,6 +782,9 @@ func Gen(r *core.Rng, scrapeable bool) *Spec {
 	}
 	if r.Intn(3) == 0 {
 		s.RuleFiles = []string{"/etc/prometheus/rules/*.yml", "/etc/prometheus/alerts.yml"}[:1+r.Intn(2)]
+		if r.Intn(2) == 0 {
+			s.RuleFiles = append(s.RuleFiles, "rules/relative-*.yml") // relative to the configuration file, if there is one
+		}
 	}
 	if r.Intn(2) == 0 {
 		a := &Alerting{}
